@@ -226,9 +226,15 @@ def body_large(ctx, conv):
         # longitudes on a 0..360 axis, crossing the antimeridian: coordinates are exported as they are
         nj, ni = 3, 6
         ds = builders.cf1d(nj, ni, lat=numpy.array([-10.0, -5.0, 0.0]), lon=numpy.array([170.0, 175.0, 180.0, 185.0, 190.0, 195.0]))
+    elif conv == 'cf1d-int':
+        # whole-degree coordinates stored in integer types, odd spacings (cell edges are half-way values)
+        nj, ni = 3, 4
+        ds = builders.cf1d(nj, ni, lat=numpy.array([-2, -1, 2], dtype='int32'), lon=numpy.array([150, 151, 154, 155], dtype='int64'))
     else:
         ds = builders.cf1d(nj, ni)
     cv = ds.ems
+    from harness import geomref
+    geomref.check(ctx, ds, cv)
     present = [n for n, p in enumerate(cv.polygons) if p is not None]
     N = len(present)
     os.makedirs(os.path.join(VERIF, '.work'), exist_ok=True)
@@ -343,6 +349,7 @@ def cases(tier):
         yield Case(f'cli:{fmt}:{ext}', body_cli, dict(fmt=fmt, ext=ext), max_paths=3)
     yield Case('large:cf2d-holes:3x4', body_large, dict(conv='cf2d-holes'), patches=_large_patches(), max_paths=5)
     yield Case('large:cf1d-0-360:3x6', body_large, dict(conv='cf1d-0-360'), patches=_large_patches(), max_paths=5)
+    yield Case('large:cf1d-int:3x4', body_large, dict(conv='cf1d-int'), patches=_large_patches(), max_paths=5)
     for conv in ('shoc_standard', 'cf1d'):
         yield Case(f'large:{conv}:101x11', body_large, dict(conv=conv), patches=_large_patches(), max_paths=5)
     for mesh in (['tqp'] if q else ['tqp', 'fan', 'tq']):
